@@ -424,8 +424,182 @@ fn open_check(dir: &str) -> i32 {
   if bad > 0 { 1 } else { 0 }
 }
 
+// ------------------------------------------------------------------------------------------------ reopen check (C05)
+#[derive(PartialEq, Debug, Clone)]
+struct Obs {
+  allocated: usize,
+  discarded: u32,
+  data_offset: usize,
+  min_seg: u32,
+  magic: u16,
+  cap: usize,
+}
+fn obs<A: Allocator>(a: &A) -> Obs {
+  Obs { allocated: a.allocated(), discarded: a.discarded(), data_offset: a.data_offset(), min_seg: a.minimum_segment_size(), magic: a.magic_version(), cap: a.capacity() }
+}
+
+/// One close/reopen experiment against the real crate: history (3 allocations, one released, one too small to
+/// become a segment) -> drop without flush -> reopen in every mode. Prints `NATIVE R<k> violated: ...` lines.
+fn reopen_one<A: Allocator>(dir: &str, tag: &str, fl: Freelist, reserved: u32, bad: &mut [u32; 6]) {
+  let p = format!("{dir}/reopen_{tag}_{reserved}.arena");
+  let _ = std::fs::remove_file(&p);
+  let cap = 4096u32;
+  let mk = || Options::new().with_capacity(cap).with_reserved(reserved).with_freelist(fl).with_magic_version(7).with_read(true).with_write(true);
+  let (before, live, resv): (Obs, Vec<(usize, Vec<u8>)>, Vec<u8>);
+  {
+    let a: A = unsafe { mk().with_create_new(true).map_mut::<A, _>(&p).expect("create") };
+    a.set_minimum_segment_size(24);
+    unsafe { a.reserved_slice_mut().iter_mut().enumerate().for_each(|(i, b)| *b = 0xA0 + i as u8) };
+    let mut hs = Vec::new();
+    for (i, n) in [40u32, 24, 100, 56].iter().enumerate() {
+      let mut b = a.alloc_bytes(*n).expect("alloc");
+      b.put_slice(&vec![0x11 * (i as u8 + 1); *n as usize]).unwrap();
+      hs.push(b);
+    }
+    // release the second (becomes a segment unless the list is None) ; keep the others live (detached)
+    let mut it = hs.into_iter();
+    let mut h0 = it.next().unwrap();
+    let h1 = it.next().unwrap();
+    let mut h2 = it.next().unwrap();
+    let mut h3 = it.next().unwrap();
+    drop(h1);
+    a.increase_discarded(3);
+    let mut lv = Vec::new();
+    for h in [&mut h0, &mut h2, &mut h3] {
+      unsafe { h.detach() };
+      lv.push((h.offset(), h[..].to_vec()));
+    }
+    before = obs(&a);
+    live = lv;
+    resv = a.reserved_slice().to_vec();
+  }
+  let flen = std::fs::metadata(&p).map(|m| m.len()).unwrap_or(0);
+  if flen != cap as u64 {
+    println!("NATIVE R5 violated: [{tag}] file length after drop is {flen}, was {cap}");
+    bad[5] += 1;
+  }
+  let image = std::fs::read(&p).unwrap();
+  let check_common = |a: &A, mode: &str, rid: usize, bad: &mut [u32; 6]| {
+    let now = obs(a);
+    let mut b4 = before.clone();
+    b4.cap = now.cap; // capacity may legitimately differ (larger / absent capacity option)
+    if now != b4 {
+      println!("NATIVE R{rid} violated: [{tag} {mode}] observables after reopen {now:?} != before close {b4:?}");
+      bad[rid] += 1;
+    }
+    let mem = a.memory();
+    for (o, bytes) in &live {
+      if mem.len() < o + bytes.len() || &mem[*o..o + bytes.len()] != &bytes[..] {
+        println!("NATIVE R1 violated: [{tag} {mode}] bytes of the live range at {o} changed across the reopen");
+        bad[1] += 1;
+      }
+    }
+    if a.reserved_slice() != &resv[..] {
+      println!("NATIVE R1 violated: [{tag} {mode}] reserved prefix changed across the reopen");
+      bad[1] += 1;
+    }
+  };
+  // read-only modes first (they must not change the file)
+  for (mode, capo) in [("map", None), ("map_copy_read_only", None), ("map", Some(2 * cap)), ("map_copy_read_only", Some(cap / 2)), ("map", Some(cap))] {
+    let r = unsafe {
+      let o = Options::new().with_reserved(reserved).with_magic_version(7).with_read(true);
+      let o = if let Some(c) = capo { o.with_capacity(c) } else { o };
+      if mode == "map" { o.map::<A, _>(&p) } else { o.map_copy_read_only::<A, _>(&p) }
+    };
+    let mode = &format!("{mode} capacity={capo:?}")[..];
+    match r {
+      Ok(a) => {
+        if capo.map_or(true, |c| c as usize >= before.allocated) {
+          check_common(&a, mode, 4, bad);
+        }
+        if a.capacity() as u64 > flen || a.memory().len() as u64 > flen {
+          println!("NATIVE R4 violated: [{tag} {mode}] the read-only arena reports capacity {} / memory() of {} bytes for a file of {flen} bytes", a.capacity(), a.memory().len());
+          bad[4] += 1;
+        }
+        if !a.read_only() || a.alloc_bytes(8).is_ok() {
+          println!("NATIVE R4 violated: [{tag} {mode}] read-only reopen accepts an allocation");
+          bad[4] += 1;
+        }
+      }
+      Err(e) => {
+        println!("NATIVE R4 violated: [{tag} {mode}] reopen failed: {e}");
+        bad[4] += 1;
+      }
+    }
+    if std::fs::read(&p).unwrap() != image {
+      println!("NATIVE R4 violated: [{tag} {mode}] the file changed");
+      bad[4] += 1;
+    }
+  }
+  // copy-on-write and writable, with the same / a larger / no capacity
+  for (mode, capo) in [("map_copy", Some(cap)), ("map_mut", Some(cap)), ("map_mut", None), ("map_mut", Some(2 * cap))] {
+    let o = Options::new().with_reserved(reserved).with_freelist(fl).with_magic_version(7).with_read(true).with_write(true);
+    let o = if let Some(c) = capo { o.with_capacity(c) } else { o };
+    let r = unsafe { if mode == "map_copy" { o.map_copy::<A, _>(&p) } else { o.map_mut::<A, _>(&p) } };
+    let label = format!("{mode} capacity={capo:?}");
+    match r {
+      Ok(a) => {
+        check_common(&a, &label, 3, bad);
+        let mem = a.memory();
+        if mem[before.allocated..].iter().any(|b| *b != 0) {
+          println!("NATIVE R1 violated: [{tag} {label}] bytes at or above the stored cursor are not zero after the reopen");
+          bad[1] += 1;
+        }
+        if mode == "map_mut" {
+          // new allocations never overlap the ranges that were live before closing
+          let mut n = 0;
+          while let Ok(mut b) = a.alloc_bytes(16) {
+            unsafe { b.detach() };
+            let (o, c) = (b.offset(), b.capacity());
+            for (lo, bytes) in &live {
+              if o < lo + bytes.len() && *lo < o + c {
+                println!("NATIVE R1 violated: [{tag} {label}] allocation [{o},{}) after the reopen overlaps the live range at {lo}", o + c);
+                bad[1] += 1;
+              }
+            }
+            n += 1;
+            if n > 1024 { break; }
+          }
+          // give the space back so that the next reopen sees the same cursor: rewind is not used; instead restore the image
+        }
+      }
+      Err(e) => {
+        println!("NATIVE R3 violated: [{tag} {label}] reopen failed: {e}");
+        bad[3] += 1;
+      }
+    }
+    let l2 = std::fs::metadata(&p).map(|m| m.len()).unwrap_or(0);
+    if l2 < cap as u64 {
+      println!("NATIVE R2 violated: [{tag} {label}] the file shrank to {l2}");
+      bad[2] += 1;
+    }
+    // restore the closed image for the next mode (writable reopens allocate)
+    std::fs::write(&p, &image).unwrap();
+  }
+  let _ = std::fs::remove_file(&p);
+}
+
+fn reopen_check(dir: &str) -> i32 {
+  let mut bad = [0u32; 6];
+  for (name, fl) in [("opt", Freelist::Optimistic), ("pess", Freelist::Pessimistic), ("none", Freelist::None)] {
+    for reserved in [0u32, 5] {
+      reopen_one::<Arena>(dir, &format!("sync_{name}"), fl, reserved, &mut bad);
+      reopen_one::<rarena_allocator::unsync::Arena>(dir, &format!("unsync_{name}"), fl, reserved, &mut bad);
+    }
+  }
+  for k in 1..6 {
+    if bad[k] == 0 {
+      println!("NATIVE R{k} holds");
+    }
+  }
+  if bad.iter().any(|b| *b > 0) { 1 } else { 0 }
+}
+
 fn main() {
   let args: Vec<String> = std::env::args().collect();
+  if args[1] == "--reopen-check" {
+    std::process::exit(reopen_check(&args[2]));
+  }
   if args[1] == "--open-check" {
     std::process::exit(open_check(&args[2]));
   }
